@@ -201,6 +201,8 @@ pub fn run(args: &Args, out: &mut Out) {
         config.insert("high_cyclomatic_complexity".to_owned(), toml::value::Value::Table(t));
         Checker::new(CheckerConfig { config, ..CheckerConfig::default() }, std51.clone()).unwrap()
     };
+    // an end-anchored pattern: only the bare `_` may go unused / shadow; `_x`, `__`, `_1` are ordinary names (v5)
+    let checker_v5 = variant("^_$", true);
     let checker_v3 = partial(None, Some(false));
     let checker_v4 = partial(Some("^x"), None);
     let std_sx = crate::libgen::lib_sx(&std51);
@@ -229,6 +231,7 @@ pub fn run(args: &Args, out: &mut Out) {
                     lint_diags_sx(&checker_v3, &ast, &d, &codes),
                     lint_diags_sx(&checker_v4, &ast, &d, &codes),
                     lint_diags_sx(&checker_hcc, &ast, &d, &["high_cyclomatic_complexity"]),
+                    lint_diags_sx(&checker_v5, &ast, &d, &codes),
                 ]),
             )
         }));
